@@ -2003,7 +2003,7 @@ def adapt_accepts(op, a):
 
 
 def gen_o_roundtrip(rng, tier):
-    yield from gen_ser(rng, "quick")
+    yield from gen_ser(rng, tier)  # the thorough tier goes on into the larger random part until the sweep budget ends
 
 
 def gen_o_helpers(rng, tier):
